@@ -77,6 +77,7 @@ def Value.isAddrExpr : Value → Bool | .expr _ _ _ _ true => true | _ => false
 def Value.isMultiByte : Value → Bool | .multiByte _ => true | _ => false
 def Value.isMultiWord : Value → Bool | .multiWord _ => true | _ => false
 def Value.isNegative : Value → Bool | .numeric _ _ _ n => n | _ => false
+def Value.isExplicitExtended (v : Value) : Bool := v.mode == .explExtended
 def Value.isExtendedLike (v : Value) : Bool := v.mode == .extended || v.mode == .explExtended
 def Value.isDirect (v : Value) : Bool := v.mode == .direct
 def Value.isExplicitDirect (v : Value) : Bool := v.mode == .explDirect
@@ -122,7 +123,7 @@ def numericOfStr (s : Str) (sizeHint : Option Nat) (mode : Mode) : R Value :=
       if bits.length != 8 && bits.length != 16 then .error .valueType
       else
         let v := parseBase 2 bits
-        if bits.length == 8 && sizeHint.isNone then
+        if bits.length == 8 && sizeHint.isNone && mode != .explExtended then     -- an explicit > is honoured (fix A6)
           .ok (.numeric v (some 2) (if mode != .immediate then .direct else mode) false)
         else .ok (.numeric v selfHint mode false)
     else .error .valueType
@@ -131,7 +132,7 @@ def numericOfStr (s : Str) (sizeHint : Option Nat) (mode : Mode) : R Value :=
       if hs.length > 4 then .error .valueType
       else
         let v := parseBase 16 hs
-        let (h, m) := if hs.length == 2 && sizeHint.isNone
+        let (h, m) := if hs.length == 2 && sizeHint.isNone && mode != .explExtended
                       then (some 2, if mode != .immediate then Mode.direct else mode) else (selfHint, mode)
         .ok (.numeric v h (if m == .none then .extended else m) false)
     else .error .valueType
@@ -223,19 +224,27 @@ def Value.hexLen? (v : Value) : Option Nat :=
 
 def Value.byteLen? (v : Value) : Option Nat := v.hexLen?.map (· / 2)
 
-/-- NumericValue(x).hex(size=w) for an element of a multi-byte / multi-word list -/
+/-- `NumericValue.fit(digits)`: the value as an unsigned field of `digits` hex digits, a negative value in two's
+complement at that width; `valueType` = "does not fit" -/
+def fitNum (n : Nat) (neg : Bool) (digits : Nat) : R Value :=
+  let number : Int := if neg then -(n : Int) else n
+  if -((2 : Int) ^ (4 * digits - 1)) ≤ number ∧ number < (2 : Int) ^ (4 * digits) then
+    numericOfInt (number % (2 : Int) ^ (4 * digits)) (some digits) .none
+  else .error .valueType
+
+/-- `NumericValue(x).fit(w).hex()` for an element of a multi-byte / multi-word list -/
 def elemHex (w : Nat) (x : Str) : R Str :=
   match numericOfStr x Option.none .none with
-  | .ok (.numeric i h n neg) => .ok (numHex i h neg w)
+  | .ok (.numeric i _ _ neg) =>
+    (match fitNum i neg w with
+     | .ok v => (match v.hex? with | some h => .ok h | Option.none => .error .other)
+     | .error e => .error e)
   | .ok _ => .error .other
   | .error e => .error e
 
 def multi (w : Nat) (value : Str) : R (List Str) :=
   if !(value.contains ',') then .error .valueType
-  else
-    match ((splitOn ',' value).filter (· != [])).mapM (elemHex w) with
-    | .ok hs => if w == 2 && hs.any (fun h => h.length > 2) then .error .valueType else .ok hs   -- "must fit in 8 bits" (after the repair)
-    | .error e => .error e
+  else ((splitOn ',' value).filter (· != [])).mapM (elemHex w)
 
 /-- `Value.create_from_str(value, instruction, default_mode_extended)`; the instruction enters only through
 `is_string_define` and `is_16_bit`. fuel bounds the depth-2 recursion through ExpressionValue. -/
@@ -324,6 +333,7 @@ def Value.resolve (v : Value) (t : SymTab) : R Value :=
         | Option.none => .error .other                           -- ZeroDivisionError
         | some z =>
           let s : Str := if z < 0 then '-' :: (toString z.natAbs).toList else (toString z.natAbs).toList
+          let m := if z > 255 && m == .direct then Mode.extended else m      -- two direct page values can combine to one that is not (fix A13)
           match numericOfStr s Option.none m with
           | .ok nv => .ok nv
           | .error _ => .error .other
